@@ -651,6 +651,23 @@ def discrete_flags(ctx, P, rule="DISCRETE-FLAGS", floor=6):
             acc = [o for o in ops if o != "self->" + flag][0]
             # accumulations of acc
             kinds, last = set(), None
+            lost = None
+            for y in walk(fn.body):
+                if is_assign(y) and estr(strip(y.kids[0])) == acc and any(c.k == "CallExpr" and callee(c) == "is_discrete" for c in walk(y.kids[1])):
+                    r_ = strip(y.kids[1])
+                    terms, todo_ = [], [r_]
+                    while todo_:
+                        q = strip(todo_.pop())
+                        if q is not None and q.k == "BinaryOperator" and q.op == "&&":
+                            todo_ += [q.kids[0], q.kids[1]]
+                        elif q is not None:
+                            terms.append(estr(q))
+                    if acc not in terms:
+                        lost = y
+            if lost is not None:
+                ctx.ob(rule, key, False, tu.loc(lost), "`%s` overwrites `%s` instead of accumulating (`%s = %s && …`): only the last value decides the flag"
+                       % (estr(lost)[:60], acc, acc, acc))
+                continue
             for y in walk(fn.body):
                 if is_assign(y) and estr(strip(y.kids[0])) == acc:
                     for c in walk(y.kids[1]):
@@ -997,3 +1014,59 @@ def py_windows_parity(ctx, py, funcs, rule="PY-WINDOWS-PARITY"):
         if not found:
             ctx.ob(rule, "%s.%s" % (mn, qn), False, m.loc(fn), "no `if windows is None: … else: …` found")
     return n
+
+
+def py_unknown_time(ctx, py, rule="PY-UNKNOWN-TIME"):
+    ctx.rule(rule, "the UNKNOWN_TIME sentinel is substituted only for an absent value: every conditional in tables.py / trees.py that "
+                   "yields UNKNOWN_TIME tests `<x> is None` (or the text-format marker), never np.isnan / math.isnan – a genuine NaN "
+                   "is a different bit pattern and must reach the table (and be rejected by the integrity check) unchanged")
+    n = 0
+    for mn in ("tables", "trees"):
+        m = py.mod(mn)
+        for qn, fn in m.funcs.items():
+            pm = {}
+            for x in ast.walk(fn):
+                for c in ast.iter_child_nodes(x):
+                    pm[c] = x
+            for x in ast.walk(fn):
+                if isinstance(x, (ast.Name, ast.Attribute)) and ast.unparse(x).endswith("UNKNOWN_TIME") and isinstance(getattr(x, "ctx", None), ast.Load):
+                    # the governing test: enclosing IfExp (body side) or If
+                    p, child, test = pm.get(x), x, None
+                    while p is not None and p is not fn:
+                        if isinstance(p, ast.IfExp) and (child is p.body or child is p.orelse):
+                            test = p.test
+                            break
+                        if isinstance(p, ast.If) and child in p.body:
+                            test = p.test
+                            break
+                        child, p = p, pm.get(p)
+                    if test is None:
+                        continue
+                    n += 1
+                    t = ast.unparse(test)
+                    bad = "isnan" in t
+                    ctx.ob(rule, "%s.%s|%s" % (mn, qn, t[:40]), not bad, m.loc(x),
+                           "UNKNOWN_TIME substituted under `%s`" % t[:60] if not bad else
+                           "UNKNOWN_TIME is substituted under `%s`: a NaN time is silently turned into the 'unknown' sentinel" % t[:60])
+    return n
+
+
+def py_tokenise_siblings(ctx, py, rule="PY-TEXT-TOKENS"):
+    ctx.rule(rule, "all text parsers (parse_individuals, parse_nodes, parse_edges, parse_sites, parse_mutations, parse_populations, "
+                   "parse_migrations) split a line the same way: `line.rstrip('\\\\n').split(sep)` – stripping only the newline, so a "
+                   "trailing empty field (an empty derived_state, an empty metadata column) survives")
+    m = py.mod("trees")
+    forms = {}
+    for qn, fn in m.funcs.items():
+        if not qn.startswith("parse_"):
+            continue
+        for x in ast.walk(fn):
+            if isinstance(x, ast.Assign) and len(x.targets) == 1 and isinstance(x.targets[0], ast.Name) and x.targets[0].id == "tokens":
+                forms[qn] = (ast.unparse(x.value), x)
+    from collections import Counter
+    ctx.need(len(forms) >= 5, "tokens = … assignments in the parse_* functions")
+    common = Counter(v for v, _ in forms.values()).most_common(1)[0][0]
+    for qn, (v, x) in sorted(forms.items()):
+        ok = v == common and "rstrip('\\n')" in v
+        ctx.ob(rule, qn, ok, m.loc(x), "tokens = %s" % v if ok else "tokens = %s differs from its siblings' `%s`" % (v, common))
+    return len(forms)
